@@ -53,6 +53,8 @@ def gen_case(ctx, stream, idx):
         ir = irgen.rand_ir(r, nparams=idx, type_kinds=("int", "str"), with_return=False)
         ir["doc"] = ""
         return ir
+    if idx % 6 == 5:
+        return irgen.similar_ir(r, type_kinds=("int", "float", "str", "bool", "literal", "optional"), default_kinds=D_KINDS)
     doc_kinds = ("plain", "plain", "stop", "none", "multiline", "punct")
     ir = irgen.rand_ir(r, nparams=r.randint(0, 8), max_params=8, type_kinds=T_KINDS, default_kinds=D_KINDS,
                        suffix_defaults=False, doc_kinds=doc_kinds)
